@@ -178,6 +178,11 @@ theorem lookupR_baseFld (S : StrFns) (b : Bool) (f : String) (fl : Fld) :
     by_cases h : n = f
     · subst h; simp
     · simp [h]
+  | mapped n o ci fs =>
+    simp only [baseFld, lookupR_cons, lookupR, Fld.name]
+    by_cases h : n = f
+    · subst h; simp
+    · simp [h]
 
 theorem lookupR_baseFields (S : StrFns) (b : Bool) (f : String) :
     ∀ fs : List Fld, lookupR (.fld f) (baseFields S b fs) =
